@@ -104,7 +104,11 @@ seq_t dtw_distance(seq_t *s1, idx_t l1,
     #ifdef DTWDEBUG
     printf("r=%zu, c=%zu\n", l1, l2);
     #endif
-    if (settings->use_pruning || settings->only_ub) {
+    // The Euclidean distance is only an upper bound when its path (the diagonal, then along the
+    // border) is admissible and not penalized
+    bool use_pruning = settings->use_pruning && settings->max_step == 0 &&
+                       (settings->penalty == 0 || l1 == l2);
+    if (use_pruning || settings->only_ub) {
         max_dist = ub_euclidean(s1, l1, s2, l2);
         if (settings->only_ub) {
             return max_dist;
@@ -344,7 +348,11 @@ seq_t dtw_distance_ndim(seq_t *s1, idx_t l1,
     #ifdef DTWDEBUG
     printf("r=%zu, c=%zu\n", l1, l2);
     #endif
-    if (settings->use_pruning || settings->only_ub) {
+    // The Euclidean distance is only an upper bound when its path (the diagonal, then along the
+    // border) is admissible and not penalized
+    bool use_pruning = settings->use_pruning && settings->max_step == 0 &&
+                       (settings->penalty == 0 || l1 == l2);
+    if (use_pruning || settings->only_ub) {
         max_dist = ub_euclidean_ndim(s1, l1, s2, l2, ndim);
         if (settings->only_ub) {
             return max_dist;
@@ -587,7 +595,11 @@ seq_t dtw_distance_euclidean(seq_t *s1, idx_t l1,
     #ifdef DTWDEBUG
     printf("r=%zu, c=%zu\n", l1, l2);
     #endif
-    if (settings->use_pruning || settings->only_ub) {
+    // The Euclidean distance is only an upper bound when its path (the diagonal, then along the
+    // border) is admissible and not penalized
+    bool use_pruning = settings->use_pruning && settings->max_step == 0 &&
+                       (settings->penalty == 0 || l1 == l2);
+    if (use_pruning || settings->only_ub) {
         max_dist = ub_euclidean_euclidean(s1, l1, s2, l2);
         if (settings->only_ub) {
             return max_dist;
@@ -815,7 +827,11 @@ seq_t dtw_distance_ndim_euclidean(seq_t *s1, idx_t l1,
     #ifdef DTWDEBUG
     printf("r=%zu, c=%zu\n", l1, l2);
     #endif
-    if (settings->use_pruning || settings->only_ub) {
+    // The Euclidean distance is only an upper bound when its path (the diagonal, then along the
+    // border) is admissible and not penalized
+    bool use_pruning = settings->use_pruning && settings->max_step == 0 &&
+                       (settings->penalty == 0 || l1 == l2);
+    if (use_pruning || settings->only_ub) {
         max_dist = ub_euclidean_ndim_euclidean(s1, l1, s2, l2, ndim);
         if (settings->only_ub) {
             return max_dist;
@@ -1067,7 +1083,11 @@ seq_t dtw_warping_paths_ndim(seq_t *wps,
     bool smaller_found;
 
     DTWWps p = dtw_wps_parts(l1, l2, settings);
-    if (settings->use_pruning || settings->only_ub) {
+    // The Euclidean distance is only an upper bound when its path (the diagonal, then along the
+    // border) is admissible and not penalized
+    bool use_pruning = settings->use_pruning && settings->max_step == 0 &&
+                       (settings->penalty == 0 || l1 == l2);
+    if (use_pruning || settings->only_ub) {
         if (ndim == 1) {
             p.max_dist = ub_euclidean(s1, l1, s2, l2);
         } else {
@@ -1457,7 +1477,11 @@ seq_t dtw_warping_paths_ndim_euclidean(seq_t *wps,
     bool smaller_found;
 
     DTWWps p = dtw_wps_parts(l1, l2, settings);
-    if (settings->use_pruning || settings->only_ub) {
+    // The Euclidean distance is only an upper bound when its path (the diagonal, then along the
+    // border) is admissible and not penalized
+    bool use_pruning = settings->use_pruning && settings->max_step == 0 &&
+                       (settings->penalty == 0 || l1 == l2);
+    if (use_pruning || settings->only_ub) {
         if (ndim == 1) {
             p.max_dist = ub_euclidean_euclidean(s1, l1, s2, l2);
         } else {
